@@ -165,6 +165,9 @@ TEMPLATES = {
     # remarks, headings, log keyword, flags
     "mixed": [R("= g1, first"), A("permit", src=X24), R("note"), A("permit", src=("h", "Xh"), log="log"), R("= g2"),
               A("deny", "tcp", dst=("h", "Y"), flags=["ack"]), A("deny", "tcp", dst=("h", "Y"), flags=["ack", "syn"]), A("deny", "ip")],
+    # mixed actions with exact duplicates: a shading deny above a permit that has a duplicate further down (and the mirror)
+    "mixdup": [A("deny", src=X24), A("permit", "tcp", dport=("eq", ["q"])), A("deny", src=("h", "Xh")), A("permit", "tcp", dport=("eq", ["q"])),
+               A("permit", src=("h", "Y")), A("deny", src=("h", "Xh")), A("permit", src=("h", "Y"))],
     # non-contiguous wildcards
     "ncw": [A("permit", src=("w", "X", "0.0.1.3")), A("permit", src=("w", "X", "0.0.0.3")), A("permit", src=("h", "X")),
             A("deny", src=("w", "Y", "0.0.1.3")), A("permit", src=("w", "X", "0.0.1.3"))],
